@@ -59,6 +59,24 @@ class NaNVal:
 
 NAN = NaNVal()
 
+
+class InfVal:
+    """A float infinity of either sign (numpy: non-zero / 0).  Distinct from NaN; any further
+    arithmetic on it is outside the supported subset."""
+
+    _inst = None
+
+    def __new__(cls):
+        if cls._inst is None:
+            cls._inst = object.__new__(cls)
+        return cls._inst
+
+    def __repr__(self):
+        return "inf"
+
+
+INF = InfVal()
+
 # number type tag = (isfloat, isnp); each a python bool or z3 BoolRef
 TAG_PYINT = (False, False)
 TAG_PYFLOAT = (True, False)
